@@ -367,7 +367,7 @@ class Check(Property):
             f.default_system = None
             names = {str(x) for x in u.get_compatible_units("meter")}
             if "smoot" not in names:
-                v.append("C13 [known finding F8c] define('smoot = 1.7018 * meter') after the registry was built: smoot is "
+                v.append("C13 define('smoot = 1.7018 * meter') after the registry was built: smoot is "
                          "missing from get_compatible_units('meter') although a registry built with that line lists it")
             u = self.mkreg()
             with u.context("c13ctx"):
